@@ -37,8 +37,17 @@ KEYS = ("connect", "read", "write", "pool")
 def run_kind(kind, tcfg, runtime):
     """one request (plus a reused second one) through `kind` with time-out configuration tcfg -> list of (op, timeout, phase)"""
     import anyio
-    w = sweep.build_world(kind, True, max_connections=2, yield_in_ops=False)
+    interim = kind == "direct-h1-interim"
+    w = sweep.build_world("direct-h1" if interim else kind, True, max_connections=2, yield_in_ops=False)
     pool, net = w["pool"], w["net"]
+    if interim:
+        import servers
+
+        def policy(server, req, idx):
+            server.out.append(b"HTTP/1.1 100 Continue\r\n\r\n")       # its own read; the final response arrives in later reads
+            server.out.append(b"HTTP/1.1 103 Early Hints\r\nLink: </x>\r\n\r\n")
+            return servers.default_policy(server, req, idx)
+        net.behavior.peer_factory = lambda rec: servers.H1Server(policy=policy)
     ext = {"timeout": dict(tcfg)}
     out = {}
 
@@ -75,7 +84,7 @@ def run(ctx, driver):
             {"read": 2.5}, {"connect": 1.5}, {"write": 3.5}, {"connect": None, "read": 2.5, "write": None}]
     for _ in range(4 if ctx.quick else 40):
         cfgs.append({k: v for k, v in ((k, rng.choice(vals)) for k in KEYS) if rng.random() < 0.8})
-    for kind in sweep.KINDS:
+    for kind in sweep.KINDS + ["direct-h1-interim"]:
         negotiation_kind = kind.startswith("socks5")
         for tcfg in cfgs:
             for rt in (("asyncio",) if ctx.quick else ("asyncio", "trio")):
@@ -189,6 +198,53 @@ def pool_timeout_runs(ctx, rec):
                     if t >= T + 0.2 and o != "error:PoolTimeout" and free_at > T:
                         rec.fail("pool-timeout-too-late", {}, payload)
             rec.dist["pool-timeout-case"] += 1
+    # a request that is re-queued (ConnectionNotAvailable) keeps its full pool time-out: three waiters behind one keep-alive connection
+    async def requeue_schedule(ex, spawn, settle):
+        async def drain():
+            for _ in range(60):
+                await settle()
+                ch = ex.choices()
+                if not ch:
+                    break
+                ch[0][1].event.set()
+            await settle()
+        T = ex.cfg["T"]
+        cs = [concur.Caller(i, 0, hold=True, pool_timeout=(None if i == 0 else T)) for i in range(4)]
+        ex.callers.extend(cs)
+        spawn(cs[0])
+        await drain()
+        for c in cs[1:]:
+            spawn(c)
+        await settle()
+        t = 0.0
+        timeline = []
+        for when in ex.cfg["release_at"]:
+            ex.tick(when - t)
+            t = when
+            await settle()
+            holders = [c for c in cs if c.state == "holding"]
+            if holders:
+                holders[0].release.set()
+            await drain()
+            timeline.append((t, [(c.idx, c.state, c.outcome) for c in cs]))
+        ex.result = {"timeline": timeline}
+        ex.net.gated = False
+        for c in cs:
+            if c.state == "holding":
+                c.release.set()
+        await settle()
+
+    for rt in ("asyncio", "trio"):
+        import random
+        ex = concur.Explorer(rt, {"max_connections": 1, "origins": 1, "callers": 4, "T": 3.0, "release_at": [1.0, 2.0, 2.5, 2.75],
+                                  "http2": False, "max_keepalive": None}, random.Random(2))
+        (concur.run_asyncio if rt == "asyncio" else concur.run_trio)(ex, requeue_schedule)
+        rec.evals += 1
+        rec.distinct.add(("pool-timeout-requeue", rt))
+        outs = {c.idx: c.outcome for c in ex.callers}
+        if any(o == "error:PoolTimeout" for o in outs.values()):
+            rec.fail("pool-timeout-too-early", {"case": "re-queued"}, {"runtime": rt, "outcomes": outs, "timeline": [[t, x] for t, x in ex.result["timeline"]]})
+        rec.dist["pool-timeout-requeue:" + "/".join(str(outs[i]) for i in sorted(outs))] += 1
     # zero pool time-out succeeds when no waiting is needed
     for rt in ("asyncio", "trio"):
         ops, out = run_kind("direct-h1", {"pool": 0}, rt)
